@@ -187,6 +187,8 @@ fn written_case(t: &Target, l: &mut Local) {
     }
     l.transitions += 1;
     l.validated += 1;
+    // read back at a rotating address residue (engine::place)
+    crate::placed!(l, bytes);
     let r = guard::catch(|| Packet::parse(&bytes));
     let p = match r {
         Err(pi) => {
@@ -215,8 +217,9 @@ fn written_case(t: &Target, l: &mut Local) {
     // then the other one
     {
         l.transitions += 1;
-        let mut two = bytes.clone();
+        let mut two = bytes.to_vec();
         two.extend_from_slice(&[0x81, 203, 0, 1, 0xAB, 0xCD, 0xEF, 0x01]);
+        crate::placed!(l, two, 5);
         let r = guard::catch(|| -> Result<(), String> {
             let c = Compound::parse(&two).map_err(|e| format!("Compound::parse = {:?}", e))?;
             let items: Vec<_> = c.take(4).collect();
@@ -242,6 +245,7 @@ fn written_case(t: &Target, l: &mut Local) {
         l.transitions += 4;
         let mut two = vec![0x81u8, 203, 0, 1, 0xAB, 0xCD, 0xEF, 0x01];
         two.extend_from_slice(&bytes);
+        crate::placed!(l, two, 2);
         let r = guard::catch(|| -> Result<(), String> {
             let c = || Compound::parse(&two).map_err(|e| format!("Compound::parse = {:?}", e));
             let is_it = |x: Option<Result<Packet<'_>, RtcpParseError>>, how: &str| match x {
